@@ -469,7 +469,7 @@ def _conds(idx, node, stop):
 def rules(ctx):
     from ..engine import only
     from . import c01, c03
-    out = [r11_1, r11_2, r11_3, r11_4, c03.r03_4,
+    out = [__import__('vjsx.rules.c10', fromlist=['x']).field_ratchet('evaluation count / order must not depend on earlier elements'), r11_1, r11_2, r11_3, r11_4, c03.r03_4,
            only(c01.r01_1, lambda k: k.startswith(("component predicate", "the Fragment name")), "which hosts are components: only their children are deferred into slot functions")]
     if ctx.tier == "thorough":
         from . import controls
